@@ -69,6 +69,14 @@ func canon(v ssa.Value, d int) string {
 			if p, ok := x.X.(*ssa.Parameter); ok && !storedBefore(p, x) {
 				return "*(" + canon(p, d+1) + ")"
 			}
+			// a pointer obtained from a call (e.g. the *string an evaluator returns) that this
+			// function only ever loads from: every load sees the same value
+			switch x.X.(type) {
+			case *ssa.Extract, *ssa.Call:
+				if onlyLoaded(x.X) {
+					return "*(" + uniq(x.X) + ")"
+				}
+			}
 			return uniq(v)
 		}
 	case *ssa.Call:
@@ -183,6 +191,25 @@ func fieldStored(fa *ssa.FieldAddr) bool {
 
 func canonBaseField(fa *ssa.FieldAddr) string {
 	return fmt.Sprintf("%s#%d", canon(fa.X, 5), fa.Field)
+}
+
+// onlyLoaded: every use of the pointer is a load (or a debug reference).
+func onlyLoaded(p ssa.Value) bool {
+	if p.Referrers() == nil {
+		return true
+	}
+	for _, r := range *p.Referrers() {
+		switch y := r.(type) {
+		case *ssa.UnOp:
+			if y.Op != token.MUL {
+				return false
+			}
+		case *ssa.DebugRef:
+		default:
+			return false
+		}
+	}
+	return true
 }
 
 // storedBefore: some store through the pointer parameter p can execute before the load
